@@ -1,8 +1,86 @@
 (* Property theorems for C03 -- statements only; proofs are `exact` of lemmas. *)
 From Coq Require Import ZArith List Bool Lia.
-From GD Require Import C04.Bytes C03.Write C03.WriteProofs.
+From GD Require Import C04.Bytes C03.Write C03.WriteProofs C03.Sie C03.SieProofs.
 Import ListNotations.
 
+(* the field ends at the highest sample written *)
 Theorem field_ends_at_highest_sample_written : forall (A : Type) (zero : A) a p d,
   d <> [] -> length (array_write zero a p d) = Nat.max (length a) (p + length d).
 Proof. exact @array_write_length. Qed.
+
+(* ---- unencoded files, any type, byte order (incl. ARM) and host ---- *)
+Theorem raw_write_refines : forall h t s vs p d,
+  Forall (wf_sample t) vs -> Forall (wf_sample t) d ->
+  raw_put h t s (raw_layout h t s vs) p d = raw_layout h t s (array_write (zero_sample t) vs p d).
+Proof. exact raw_put_refines. Qed.
+
+Theorem raw_history_reads_back : forall h t s (ops : list (nat * list sample)) vs,
+  Forall (wf_sample t) vs -> Forall (fun o => Forall (wf_sample t) (snd o)) ops ->
+  raw_decode h t s (fold_left (fun f o => raw_put h t s f (fst o) (snd o)) ops (raw_layout h t s vs))
+  = apply_writes (zero_sample t) vs ops.
+Proof. exact raw_history_refines. Qed.
+
+(* ---- gzip / bzip2 / lzma: the out-of-place protocol, any copy-buffer size >= 1 ---- *)
+Theorem oop_write_refines : forall zero chunk, 1 <= chunk -> forall st p d,
+  oop_ok st -> d <> [] ->
+  oop_abs (oop_put zero chunk st p d) = array_write zero (oop_abs st) p d /\ oop_ok (oop_put zero chunk st p d).
+Proof. exact oop_put_refines. Qed.
+
+(* all histories of writes and flushes; what is on disk after the last flush/close is the flat array *)
+Theorem oop_histories_refine : forall zero chunk, 1 <= chunk -> forall ops st,
+  oop_ok st ->
+  oop_abs (fold_left (oop_step zero chunk) ops st) = fold_left (spec_step zero) ops (oop_abs st) /\
+  oop_ok (fold_left (oop_step zero chunk) ops st).
+Proof. exact oop_history_refines. Qed.
+
+Theorem oop_close_reopen : forall chunk, 1 <= chunk -> forall st, oop_ok st -> o_old (oop_finish chunk st) = oop_abs st.
+Proof. exact oop_reopen. Qed.
+
+Theorem oop_read_as_documented : forall chunk, 1 <= chunk -> forall st n, oop_ok st ->
+  snd (oop_get_doc chunk st n) = firstn n (oop_abs st) /\
+  oop_abs (fst (oop_get_doc chunk st n)) = oop_abs st /\ oop_ok (fst (oop_get_doc chunk st n)).
+Proof. exact oop_get_doc_correct. Qed.
+
+(* the read the code performs while a write is pending and the old file is open loses data:
+   full statement, its refutation; the partial theorem is oop_histories_refine (reads only after a flush) *)
+Definition oop_read_preserves_field_statement : Prop := oop_get_statement.
+Theorem oop_read_preserves_field_refuted : ~ oop_get_statement.
+Proof. exact oop_get_refuted. Qed.
+
+(* ---- SIE: the cursor machine of sie.c ---- *)
+Definition sie_write_refines_statement : Prop := sie_refines_statement.
+Theorem sie_write_refines_refuted : ~ sie_refines_statement.
+Proof. exact sie_refines_refuted. Qed.
+
+Definition sie_record_ends_increase_statement : Prop := sie_increasing_statement.
+Theorem sie_record_ends_increase_refuted : ~ sie_increasing_statement.
+Proof. exact sie_increasing_refuted. Qed.
+
+(* ---- derived writes ---- *)
+(* BIT/SBIT read-modify-write, all 64-bit words: bits of the field take the value, all others are kept *)
+Theorem bit_write_changes_exactly_the_field : forall old v bitnum numbits i,
+  (0 <= old < 2 ^ 64 -> 0 <= bitnum -> 0 < numbits -> bitnum + numbits <= 64 -> 0 <= i < 64 ->
+  Z.testbit (bit_out old v bitnum numbits) i =
+    if (bitnum <=? i) && (i <? bitnum + numbits) then Z.testbit v (i - bitnum) else Z.testbit old i)%Z.
+Proof. exact bit_out_bits. Qed.
+
+Theorem bit_write_reads_back : forall old v bitnum numbits,
+  (0 <= old < 2 ^ 64 -> 0 <= bitnum -> 0 < numbits -> bitnum + numbits <= 64 ->
+  bit_in (bit_out old v bitnum numbits) bitnum numbits = Z.land v (bit_mask numbits))%Z.
+Proof. exact bit_in_out. Qed.
+
+Theorem phase_write_is_index_shift : forall (A : Type) (zero : A) a shift p d,
+  phase_out zero a shift p d = array_write zero a (p + shift) d.
+Proof. exact @phase_out_is_shifted_write. Qed.
+
+(* MPLEX: full statement, refutation (unequal rates), partial (equal rates) *)
+Definition mplex_write_statement : Prop := mplex_statement.
+Theorem mplex_write_refuted : ~ mplex_statement.
+Proof. exact mplex_refuted. Qed.
+Theorem mplex_write_partial : forall (A : Type) (dflt : A) spf cnt val (old new : list A),
+  0 < spf -> length old = length new -> mplex_code dflt spf spf cnt val old new = mplex_spec spf spf cnt val old new.
+Proof. exact @mplex_equal_rates. Qed.
+
+(* hypotheses are satisfiable *)
+Example oop_ok_inhabited : oop_ok (mkOop [[1%Z]; [2%Z]] true true 1 (Some [[7%Z]])).
+Proof. split; [split; cbn; [reflexivity | discriminate] | discriminate]. Qed.
